@@ -48,7 +48,7 @@ func (x *c18Exec) eval(fr *c18Frame, e ast.Expr) c18Val {
 	case *ast.StarExpr:
 		v := x.eval(fr, t.X)
 		switch v.k {
-		case c18KRecv, c18KEntry, c18KNode, c18KTable, c18KUnknown:
+		case c18KRecv, c18KEntry, c18KNode, c18KTable, c18KStruct, c18KUnknown:
 			return v
 		}
 		return c18Unk("dereference `%s` is not modelled", x.src(e))
@@ -64,7 +64,7 @@ func (x *c18Exec) eval(fr *c18Frame, e ast.Expr) c18Val {
 		case token.AND:
 			v := x.eval(fr, t.X)
 			switch v.k {
-			case c18KRecv, c18KEntry, c18KNode, c18KUnknown:
+			case c18KRecv, c18KEntry, c18KNode, c18KStruct, c18KUnknown:
 				return v
 			}
 			return c18Unk("address `%s` is not modelled", x.src(e))
@@ -96,7 +96,7 @@ func (x *c18Exec) eval(fr *c18Frame, e ast.Expr) c18Val {
 			return b
 		case token.EQL, token.NEQ, token.LSS, token.LEQ, token.GTR, token.GEQ:
 			return x.compare(t.Op, x.eval(fr, t.X), x.eval(fr, t.Y), t)
-		case token.ADD, token.SUB, token.MUL:
+		case token.ADD, token.SUB, token.MUL, token.QUO, token.REM, token.SHL, token.SHR:
 			return x.arith(t.Op, x.eval(fr, t.X), x.eval(fr, t.Y), t)
 		}
 		return c18Unk("operator in `%s` is not modelled", x.src(e))
@@ -105,9 +105,7 @@ func (x *c18Exec) eval(fr *c18Frame, e ast.Expr) c18Val {
 	case *ast.FuncLit:
 		return c18Val{k: c18KFunc, lit: t, fr: fr}
 	case *ast.CompositeLit:
-		if _, isMap := x.info.TypeOf(t).Underlying().(*types.Map); isMap {
-			return c18Val{k: c18KMap, cl: t, fr: fr}
-		}
+		return x.composite(fr, t)
 	}
 	return c18Unk("`%s` is not modelled", x.src(e))
 }
@@ -125,6 +123,10 @@ func (x *c18Exec) pkgValue(o types.Object, at ast.Node) c18Val {
 	if mv, ok := x.pkgMap(o); ok {
 		x.pkgC[o] = mv
 		return mv
+	}
+	if lv, ok := x.pkgLiteral(o); ok {
+		x.pkgC[o] = lv
+		return lv
 	}
 	if pv, ok := o.(*types.Var); ok && !pv.IsField() && pv.Pkg() == x.pk.Types && pv.Parent() == x.pk.Types.Scope() {
 		if init := c18VarInit(x.pk, pv); init != nil {
@@ -172,6 +174,10 @@ func (x *c18Exec) selector(fr *c18Frame, sel *ast.SelectorExpr) c18Val {
 	switch base.k {
 	case c18KUnknown:
 		return base
+	case c18KStruct:
+		if len(s.Index()) == 1 {
+			return x.field(base, f, sel)
+		}
 	case c18KRecv:
 		if len(s.Index()) == 1 {
 			switch f.Name() {
@@ -212,6 +218,15 @@ func (x *c18Exec) index(fr *c18Frame, ix *ast.IndexExpr) c18Val {
 	switch base.k {
 	case c18KUnknown:
 		return base
+	case c18KSlice, c18KNil:
+		i := x.eval(fr, ix.Index)
+		if i.k != c18KInt || i.org != 0 {
+			return c18Unk("index of `%s` is not a decided integer", x.src(ix))
+		}
+		if i.i < 0 || i.i >= int64(len(base.elems)) {
+			x.stop("panic", "`%s` indexes %d in a list of %d element(s)", x.src(ix), i.i, len(base.elems))
+		}
+		return base.elems[i.i]
 	case c18KNodes:
 		i := x.eval(fr, ix.Index)
 		if i.k != c18KInt || (i.org != 0 && i.org != c18ONodeLen) {
@@ -226,13 +241,13 @@ func (x *c18Exec) index(fr *c18Frame, ix *ast.IndexExpr) c18Val {
 		if i.k != c18KInt || (i.org != 0 && i.org != c18OSearchIdx) {
 			return c18Unk("index of `%s` is not a decided integer", x.src(ix))
 		}
-		if i.i < 0 || i.i >= 1 {
+		if i.i < 0 || i.i >= x.s.ll {
 			if i.org == c18OSearchIdx {
 				x.stop("panic", "`%s` is evaluated when the search index equals len(values) (the value sorts after every list element): index out of range", x.src(ix))
 			}
-			x.stop("panic", "`%s` indexes %d in the abstract one-element value list", x.src(ix), i.i)
+			x.stop("panic", "`%s` indexes %d in a value list of %d element(s)", x.src(ix), i.i, x.s.ll)
 		}
-		return c18Val{k: c18KStr, org: c18OElem}
+		return c18Val{k: c18KStr, org: c18OElem, i: i.i}
 	case c18KMap:
 		v, _ := x.mapLookup(fr, base, ix)
 		return v
